@@ -2,7 +2,8 @@
    Code: libs/pika/synchronization/src/detail/counting_semaphore.cpp (wait, wait_until, try_wait,
    try_acquire, signal), include/pika/synchronization/counting_semaphore.hpp (acquire = wait(l,1),
    try_acquire, try_acquire_until = wait_until(l,t,1), release = signal), src/detail/
-   sliding_semaphore.cpp (wait, try_wait, signal), and the detail condition variable
+   sliding_semaphore.cpp (wait, try_wait, signal, signal_all, set_max_difference) with the public
+   wrappers of include/pika/synchronization/sliding_semaphore.hpp, and the detail condition variable
    (src/detail/condition_variable.cpp: wait, wait_until, notify_one) they wait on.
 
    One model step = one critical section of the semaphore's spinlock (value_, lower_limit_ and the
@@ -43,6 +44,8 @@ Inductive sop :=
 | SlWait (u : Z)           (* sliding wait(upper) *)
 | SlTryWait (u : Z)        (* sliding try_wait(upper) *)
 | SlSignal (lo : Z)        (* sliding signal(lower) *)
+| SlSignalAll              (* sliding signal_all() = signal(l, lower_limit_); returns lower_limit_ (ev_lower) *)
+| SlSetMaxDiff (md lo : Z) (* sliding set_max_difference(md, lo) *)
 | StaleResume (w : nat).   (* environment: somebody's stale resume aimed at pika task w arrives now (a delayed
                               set_active_state retry helper): may be issued by any thread at any time, so a
                               suspend may return spuriously at ANY time — also after intervening yields *)
@@ -57,7 +60,8 @@ Inductive spc :=
 Record sev := { ev_tid : nat; ev_op : sop; ev_res : bool;
                 ev_avail : Z;     (* value_ before the final critical section *)
                 ev_taken : Z;     (* permits removed by the final critical section *)
-                ev_lower : Z;     (* lower_limit_ at return *)
+                ev_lower : Z;     (* lower_limit_ at return (the value signal_all returns) *)
+                ev_maxd : Z;      (* max_difference_ at return *)
                 ev_sig_active : bool  (* some signal() was still in progress at return *) }.
 
 Record sem_g := {
@@ -75,6 +79,7 @@ Record sem_l := { todo : list sop; pc : spc }.
 
 Definition set_value g v := {| value := v; lower := lower g; maxd := maxd g; queue := queue g; holder := holder g; ag := ag g; acquired := acquired g; released := released g; popped := popped g; sigl := sigl g; slog := slog g |}.
 Definition set_lower g v := {| value := value g; lower := v; maxd := maxd g; queue := queue g; holder := holder g; ag := ag g; acquired := acquired g; released := released g; popped := popped g; sigl := sigl g; slog := slog g |}.
+Definition set_maxd g v := {| value := value g; lower := lower g; maxd := v; queue := queue g; holder := holder g; ag := ag g; acquired := acquired g; released := released g; popped := popped g; sigl := sigl g; slog := slog g |}.
 Definition set_queue g v := {| value := value g; lower := lower g; maxd := maxd g; queue := v; holder := holder g; ag := ag g; acquired := acquired g; released := released g; popped := popped g; sigl := sigl g; slog := slog g |}.
 Definition set_holder g v := {| value := value g; lower := lower g; maxd := maxd g; queue := queue g; holder := v; ag := ag g; acquired := acquired g; released := released g; popped := popped g; sigl := sigl g; slog := slog g |}.
 Definition set_ag g v := {| value := value g; lower := lower g; maxd := maxd g; queue := queue g; holder := holder g; ag := v; acquired := acquired g; released := released g; popped := popped g; sigl := sigl g; slog := slog g |}.
@@ -102,7 +107,7 @@ Definition take (g : sem_g) (c : wcond) : sem_g :=
 Definition cur_op (l : sem_l) : sop := hd (StaleResume 0) (todo l).
 Definition log_ev (g : sem_g) (t : nat) (op : sop) (res : bool) (avail taken : Z) : sem_g :=
   set_slog g ({| ev_tid := t; ev_op := op; ev_res := res; ev_avail := avail; ev_taken := taken;
-                 ev_lower := lower g; ev_sig_active := nonempty (sigl g) |} :: slog g).
+                 ev_lower := lower g; ev_maxd := maxd g; ev_sig_active := nonempty (sigl g) |} :: slog g).
 Definition done_l (l : sem_l) : sem_l := {| todo := tl (todo l); pc := Idle |}.
 Definition at_pc (l : sem_l) (p : spc) : sem_l := {| todo := todo l; pc := p |}.
 
@@ -143,6 +148,12 @@ Definition notify (kind : nat -> akind) (t : nat) (g : sem_g) (l : sem_l) (chk :
     end
   else finish_sig t g l.
 
+(* sliding signal(l, x): lower_limit_ = max(x, lower_limit_); then "touch upon all threads":
+   count = cond_.size(l) iterations of notify_one (no test of value_).  [lo], [md] = the values
+   of lower_limit_ / max_difference_ written in this critical section before the loop starts *)
+Definition sl_notify (kind : nat -> akind) (t : nat) (g : sem_g) (l : sem_l) (lo md : Z) : sem_g * sem_l :=
+  notify kind t (set_maxd (set_lower g lo) md) l false (Z.of_nat (length (queue g))).
+
 Definition is_free (g : sem_g) : bool := match holder g with None => true | Some _ => false end.
 
 Definition sem_tstep (kind : nat -> akind) (passed : bool) (t : nat) (g : sem_g) (l : sem_l) : sem_g * sem_l :=
@@ -173,8 +184,11 @@ Definition sem_tstep (kind : nat -> akind) (passed : bool) (t : nat) (g : sem_g)
             | SlTryWait u =>
                 if cond_blocked g (CSl u) then fail_op t g l
                 else (log_ev g t op true (value g) 0, done_l l)
-            | SlSignal lo =>
-                notify kind t (set_lower g (Z.max lo (lower g))) l false (Z.of_nat (length (queue g)))
+            | SlSignal lo => sl_notify kind t g l (Z.max lo (lower g)) (maxd g)
+            | SlSignalAll =>                 (* signal(std::move(l), lower_limit_); the value returned is *)
+                sl_notify kind t g l (Z.max (lower g) (lower g)) (maxd g)   (* ev_lower of the log entry *)
+            | SlSetMaxDiff md lo =>          (* public wrapper (after the fix): max_difference_ = md; lower_limit_ = lo; *)
+                sl_notify kind t g l lo md   (* then sem_.signal_all(std::move(l)) under the same lock: notify every waiter *)
             | StaleResume _ => (g, l)
             end
           else (g, l)
